@@ -58,7 +58,7 @@ def np_hstack(it, a, k):
         parts = parts.seq
     if isinstance(parts, SSeq):
         # all items are scalar-like or 1-D of one element: the element layer only stacks scalars this way
-        probe = parts.elem(T.fresh("hs", T.INT))
+        probe = parts.elem(cur().fresh_index(parts.n, "hs"))
         if isinstance(probe, Arr) and not probe.is_scalar:
             raise Unsupported("hstack of a symbolic number of vectors")
         return A.concat("np", parts, "a1")
